@@ -827,3 +827,25 @@ Proof.
     apply linked_members. apply in_map. exact Is.
   - intros [s [Is [Es [_ As]]]]. subst i. apply K; [exact Fin|apply in_rev; rewrite rev_involutive; exact Is|exact As].
 Qed.
+
+(* every element of the walk is the start symbol or a symbol the table holds under its id *)
+Lemma topo_elems st sb : forall fuel queue out deg,
+  (forall x, In x (queue ++ out) -> x = sb \/ find_sym st (s_id x) = Some x) ->
+  forall x, In x (fst (topo fuel st queue out deg)) -> x = sb \/ find_sym st (s_id x) = Some x.
+Proof.
+  induction fuel as [|f IH]; intros queue out deg H x Ix.
+  - cbn in Ix. apply H. apply in_or_app. right. exact Ix.
+  - destruct queue as [|curr q]; [cbn in Ix; apply H; exact Ix|]. rewrite topo_step in Ix.
+    destruct (existsb (fun s => Nat.eqb (s_id s) (s_id curr)) out).
+    + apply (IH q out deg); [|exact Ix]. intros y Iy. apply H. cbn [app]. right. exact Iy.
+    + destruct (fold_left tf (nx st (s_id curr)) (deg, [])) as [deg' newq] eqn:F.
+      destruct (tf_fold (nx st (s_id curr)) deg []) as [_ [_ [C _]]]. rewrite F in C. cbn [fst snd] in C.
+      apply (IH (q ++ newq) (out ++ [curr]) deg'); [|exact Ix]. intros y Iy.
+      apply in_app_or in Iy. destruct Iy as [Iy|Iy].
+      * apply in_app_or in Iy. destruct Iy as [Iy|Iy].
+        -- apply H. cbn [app]. right. apply in_or_app. left. exact Iy.
+        -- destruct (C y Iy) as [[]|[Iyn _]]. right. apply (nx_canon st (s_id curr)). exact Iyn.
+      * apply in_app_or in Iy. destruct Iy as [Iy|[Iy|[]]].
+        -- apply H. cbn [app]. right. apply in_or_app. right. exact Iy.
+        -- subst y. apply H. left. reflexivity.
+Qed.
